@@ -1802,6 +1802,9 @@ fn cross_max(tier: Tier) -> usize {
 }
 
 impl Check for C16 {
+    fn quick_is_thorough(&self) -> bool {
+        true
+    }
     fn id(&self) -> &'static str {
         "C16"
     }
